@@ -3,6 +3,7 @@ package main
 // Running the executor on one function and discharging its obligations.
 
 import (
+	"context"
 	"fmt"
 	"os"
 	"path/filepath"
@@ -16,19 +17,19 @@ import (
 )
 
 type FnReport struct {
-	Key        string
-	Obs        []*Obligation
-	Covers     []*Obligation
-	Notes      []string
-	Assumed    []string
-	Inlined    []string
-	UsedCons   []string
-	Aborted    string
-	Paths      int
-	Panic      string
-	GenTime    time.Duration
-	SolveTime  time.Duration
-	Unrolled   []string
+	Key       string
+	Obs       []*Obligation
+	Covers    []*Obligation
+	Notes     []string
+	Assumed   []string
+	Inlined   []string
+	UsedCons  []string
+	Aborted   string
+	Paths     int
+	Panic     string
+	GenTime   time.Duration
+	SolveTime time.Duration
+	Unrolled  []string
 }
 
 func (p *Program) newExec(mode ExecMode) *Exec {
@@ -155,6 +156,9 @@ func obligationScript(o *Obligation, goalNeg bool, prune bool) string {
 	}
 	var b strings.Builder
 	b.WriteString(o.Decls.scriptDecls(func(n string) bool { return used[n] }))
+	if used["idx"] {
+		b.WriteString(idxDecl)
+	}
 	for i, d := range defs {
 		if incl[i] {
 			b.WriteString(d)
@@ -211,13 +215,21 @@ type dischargeOpts struct {
 }
 
 func discharge(obs []*Obligation, opt dischargeOpts) {
-	var wg sync.WaitGroup
-	sem := make(chan struct{}, opt.workers)
+	var pending []*Obligation
 	for _, o := range obs {
 		if o.Trivial {
 			o.Result = &SolverResult{Status: "unsat", Solver: "syntactic"}
 			continue
 		}
+		pending = append(pending, o)
+	}
+	// stage 1: batches of queries through one z3 process each (push/pop), pruned hypotheses
+	if !opt.all {
+		pending = batchStage(pending, opt)
+	}
+	var wg sync.WaitGroup
+	sem := make(chan struct{}, opt.workers)
+	for _, o := range pending {
 		o := o
 		wg.Add(1)
 		sem <- struct{}{}
@@ -244,20 +256,89 @@ func discharge(obs []*Obligation, opt dischargeOpts) {
 	wg.Wait()
 }
 
-// dischargeCovers: a cover is satisfied when the facts are satisfiable (or at least not refuted).
-func dischargeCovers(obs []*Obligation, opt dischargeOpts) {
+// batchStage runs the cheap solver over chunks of queries; returns those not yet proved.
+func batchStage(obs []*Obligation, opt dischargeOpts) []*Obligation {
+	const chunk = 24
 	var wg sync.WaitGroup
 	sem := make(chan struct{}, opt.workers)
-	for _, o := range obs {
-		o := o
+	for i := 0; i < len(obs); i += chunk {
+		j := i + chunk
+		if j > len(obs) {
+			j = len(obs)
+		}
+		part := obs[i:j]
 		wg.Add(1)
 		sem <- struct{}{}
 		go func() {
 			defer wg.Done()
 			defer func() { <-sem }()
-			script := obligationScript(o, false, false)
-			r := solve(script, opt.timeoutMs, false)
-			o.Result = &r
+			start := time.Now()
+			var b strings.Builder
+			for _, o := range part {
+				sc := obligationScript(o, true, true)
+				sc = strings.Replace(sc, "(get-model)\n", "", 1)
+				b.WriteString("(push 1)\n")
+				b.WriteString(sc)
+				b.WriteString("(pop 1)\n")
+			}
+			_, raw := runOne(solvers[1], b.String(), 1500, context.Background())
+			var sts []string
+			for _, ln := range strings.Split(raw, "\n") {
+				ln = strings.TrimSpace(ln)
+				switch ln {
+				case "unsat", "sat", "unknown", "timeout":
+					sts = append(sts, ln)
+				}
+			}
+			if len(sts) != len(part) {
+				return // malformed: every query goes to stage 2
+			}
+			el := time.Since(start) / time.Duration(len(part))
+			for k, o := range part {
+				if sts[k] == "unsat" {
+					o.Result = &SolverResult{Status: "unsat", Solver: "z3", All: map[string]string{"z3": "unsat"}, Elapsed: el}
+				}
+			}
+		}()
+	}
+	wg.Wait()
+	var rest []*Obligation
+	for _, o := range obs {
+		if o.Result == nil {
+			rest = append(rest, o)
+		}
+	}
+	return rest
+}
+
+// dischargeCovers: a cover is satisfied when the facts are satisfiable (or at least not refuted).
+func dischargeCovers(obs []*Obligation, opt dischargeOpts) {
+	// a cover point is reachable as soon as one of its path instances is satisfiable
+	byName := map[string][]*Obligation{}
+	var names []string
+	for _, o := range obs {
+		if _, ok := byName[o.Name]; !ok {
+			names = append(names, o.Name)
+		}
+		byName[o.Name] = append(byName[o.Name], o)
+	}
+	var wg sync.WaitGroup
+	sem := make(chan struct{}, opt.workers)
+	for _, n := range names {
+		list := byName[n]
+		wg.Add(1)
+		sem <- struct{}{}
+		go func() {
+			defer wg.Done()
+			defer func() { <-sem }()
+			for _, o := range list {
+				script := obligationScript(o, false, false)
+				r := solve(script, opt.timeoutMs, false)
+				o.Result = &r
+				if r.Status != "unsat" {
+					return
+				}
+			}
 		}()
 	}
 	wg.Wait()
